@@ -152,6 +152,9 @@ type Job struct {
 	DetFrom  int64  `json:"det_from"`       // runs in [DetFrom,DetTo) report their hash
 	DetTo    int64  `json:"det_to"`
 	Deadline int64  `json:"deadline_s"` // soft real-time budget for the range
+	RecordAll bool    `json:"record_all,omitempty"` // emit a full record for every run (race confirmation)
+	Repeat    int     `json:"repeat,omitempty"`     // execute every run this many extra times (the race detector's shadow memory is lossy)
+	NoRecords bool    `json:"no_records,omitempty"` // count violations but neither record nor minimise them
 	Reverse  bool     `json:"reverse,omitempty"` // run the range backwards (history-independence probe)
 	Known    []string `json:"known,omitempty"` // signatures not worth minimising again
 	MaxViol  int    `json:"max_violation_records"`
@@ -441,9 +444,22 @@ func search(t *testing.T, p *Prop, job *Job, emit func(any), tick func()) {
 		if len(sum.Samples) < 3 && o.Sample != nil && (o.NonTrivial || i == job.To-1) {
 			sum.Samples = append(sum.Samples, o.Sample)
 		}
+		for k := 0; k < job.Repeat; k++ {
+			w2, s2 := p.Gen(verifsim.NewRng(seed), job.Tier)
+			p.Exec(t, w2, s2)
+		}
+		if job.RecordAll {
+			rec := &Record{Property: p.ID, BaseSeed: job.Seed, Run: i, Sched: s}
+			rec.Workload, _ = json.Marshal(w)
+			if o.Res != nil {
+				rec.Sched.Replay = o.Res.Decisions
+				rec.Trace = o.Res.TraceStrings(400)
+			}
+			emit(map[string]any{"type": "rundump", "record": rec})
+		}
 		for _, v := range o.Violations {
 			sum.SigCounts[v.Sig]++
-			if recorded[v.Sig] >= job.MaxViol {
+			if recorded[v.Sig] >= job.MaxViol || job.NoRecords {
 				continue
 			}
 			recorded[v.Sig]++
@@ -456,7 +472,9 @@ func search(t *testing.T, p *Prop, job *Job, emit func(any), tick func()) {
 			}
 			if !p.FreshProcessOnly && !known[v.Sig] {
 				tick()
+				fmt.Fprintf(os.Stderr, "VERIF-BEGIN run=-1\n") // reports printed while minimising belong to no run
 				Minimise(t, p, rec, w, tick)
+				fmt.Fprintf(os.Stderr, "VERIF-END run=-1\n")
 			}
 			emit(map[string]any{"type": "violation", "record": rec})
 		}
@@ -487,6 +505,9 @@ func replay(t *testing.T, p *Prop, job *Job, emit func(any)) {
 	s.Strict = true
 	fmt.Fprintf(os.Stderr, "VERIF-BEGIN run=%d\n", rec.Run)
 	o := p.Exec(t, w, s)
+	for k := 0; k < job.Repeat; k++ {
+		p.Exec(t, w, s)
+	}
 	fmt.Fprintf(os.Stderr, "VERIF-END run=%d\n", rec.Run)
 	res := map[string]any{"type": "replay", "expected": rec.Signature, "reproduced": o.Has(rec.Signature), "violations": o.Violations}
 	if o.Res != nil {
